@@ -5,7 +5,7 @@ import random
 BASE_W = dict(
     src=2, ref=6, select=4, drop=2, rename=4, mutate=6, mutate_w=1, filter=3, filter_empty=0, arrange=2,
     slice_head=1, group_by=2, ungroup=1, summarize=2, join=3, union=1, alias=2, collect=1,
-    clone=0, recompute=0, transfer=0, expr=0, collide_setup=0, selfjoin=0, hide_ref=0, touch_hidden_computed=0, hidden_computed_scenario=0, disjoint_join_scenario=0, overwrite_chain_scenario=0, pipe=0, apply_pipe=0, observe=0, collect_lazy=0, cq_probe=0, join_chain_scenario=0, hidden_const_join_scenario=0,
+    clone=0, recompute=0, transfer=0, expr=0, collide_setup=0, selfjoin=0, hide_ref=0, touch_hidden_computed=0, hidden_computed_scenario=0, disjoint_join_scenario=0, overwrite_chain_scenario=0, pipe=0, apply_pipe=0, observe=0, collect_lazy=0, cq_probe=0, join_chain_scenario=0, hidden_const_join_scenario=0, agg_selfjoin_scenario=0, hidden_group_reject_scenario=0,
     uuid_regime=1, gc=0, arm_engine=0, reject=0,
 )  # fmt: skip
 
@@ -40,7 +40,7 @@ PROFILES = {
     "refs": dict(
         property="C09",
         oracles=["O9"],
-        weights=_w(ref=12, hide_ref=4, touch_hidden_computed=2, hidden_computed_scenario=2, overwrite_chain_scenario=3, selfjoin=3, rename=7, select=5, drop=3, mutate=8, join=4, alias=3, collect=2, summarize=2, recompute=1, clone=1, union=0, mutate_w=1),
+        weights=_w(ref=12, hide_ref=4, touch_hidden_computed=2, hidden_computed_scenario=2, overwrite_chain_scenario=3, selfjoin=3, agg_selfjoin_scenario=1, rename=7, select=5, drop=3, mutate=8, join=4, alias=3, collect=2, summarize=2, recompute=1, clone=1, union=0, mutate_w=1),
         mutate_kinds=EW,
         window_kinds=WIN,
         mutate_names=[4, 4, 3, 0],
@@ -70,7 +70,7 @@ PROFILES = {
     "reroot": dict(
         property="C16",
         oracles=["O16"],
-        weights=_w(alias=8, collect=6, clone=4, transfer=4, recompute=2, ref=8, hide_ref=3, join=3, selfjoin=6, rename=4, select=4, mutate=5, group_by=4, summarize=2, union=0, mutate_w=1),
+        weights=_w(alias=8, collect=6, clone=4, transfer=4, recompute=2, ref=8, hide_ref=3, join=3, selfjoin=6, agg_selfjoin_scenario=2, rename=4, select=4, mutate=5, group_by=4, summarize=2, union=0, mutate_w=1),
         mutate_kinds=EW,
         window_kinds=WIN,
         p_oos=0.15,
@@ -95,7 +95,7 @@ PROFILES = {
     "rejects": dict(
         property="C14",
         oracles=["O14"],
-        weights=_w(reject=14, mutate=6, mutate_w=4, group_by=5, summarize=4, join=3, alias=3, ref=8, select=4, drop=3, rename=3, transfer=2, collect=1, expr=3),
+        weights=_w(reject=14, mutate=6, mutate_w=4, group_by=5, summarize=4, join=3, alias=3, ref=8, select=4, drop=3, rename=3, transfer=2, collect=1, expr=3, hidden_group_reject_scenario=2),
         mutate_names=[4, 4, 2, 0],
         mutate_kinds=dict(EW, pool=2),
         window_kinds=dict(WIN, pool=5),
